@@ -1295,6 +1295,7 @@ def pattern_shl_i32_reg_const(context, tree, c0):
 
 @isa.pattern("reg", "MULI8(reg, reg)", size=10)
 @isa.pattern("reg", "MULU8(reg, reg)", size=10)
+@isa.pattern("reg", "MULI16(reg, reg)", size=10)
 @isa.pattern("reg", "MULU16(reg, reg)", size=10)
 @isa.pattern("reg", "MULI32(reg, reg)", size=10)
 @isa.pattern("reg", "MULU32(reg, reg)", size=10)
